@@ -200,7 +200,7 @@ class Engine:
         elif self.taint == "midcmd":
             mech = "restart_lost_trigger_during_link_command"
         elif self.taint == "race":
-            mech = "restart_inconsistent_header_raced_link_down"
+            mech = "restart_inconsistent_unacked_or_racing_header"
         if self.taint and not self.b2b_taint:
             detail = "symptom=%s %s" % (symptom, detail)
         ctx = " | cyc=%d epoch=%d expected_seq=%d ignoring=%d fifo=%d lgood_due=%s lcrd_sent=%d pops=%d last_cmds=%s epochs=%s" % (
@@ -569,9 +569,13 @@ class Engine:
         self.reset_seen = bool(rst)
         recent_acc = [c for c, k in self.hdr_ends if c >= cyc - 6 and k == "accepted"]
         recent_any = [c for c, k in self.hdr_ends if c >= cyc - 6]
-        self.race = bool(recent_any) or self.in_header is not None
-        self.exp_hi = m.expected if m.expected >= len(recent_acc) else m.expected + 8
-        self.exp_lo = self.exp_hi - len(recent_acc)
+        # "race": a header is arriving / has just arrived, or an accepted header is still waiting for its LGOOD
+        unacked = max(len(recent_acc), len(m.lgood_due))
+        self.race = bool(recent_any) or self.in_header is not None or bool(m.lgood_due)
+        if m.lgood_due and not recent_any:
+            res.bin("crash_with_unacked_header_receiver_idle")
+        self.exp_hi = m.expected if m.expected >= unacked else m.expected + 8
+        self.exp_lo = self.exp_hi - unacked
         self.advert = None
         self.crash_state = {
             "buffered": len(m.fifo), "ignoring": m.ignoring, "lbad_due": m.lbad_due, "acks_due": len(m.lgood_due),
